@@ -31,7 +31,9 @@ CONCRETE_SCALARS = (int, str, bool, float, bytes, type(None), enum.Enum)
 
 def all_concrete(vals):
     for v in vals:
-        if isinstance(v, (SV, Obj, Row, MapRef, SeqRef, SeqVal, LazyMap, DictView, BoundMethod, IFunc, Opaque, ExcVal)):
+        if getattr(v, "_pyvc_symbolic", False):
+            return False
+        if isinstance(v, (SV, Obj, Row, MapRef, SeqRef, SeqVal, LazyMap, DictView, BoundMethod, IFunc, Opaque, ExcVal, LazyStr)):
             return False
         if isinstance(v, (list, tuple, set, frozenset)):
             if not all_concrete(list(v)):
@@ -48,6 +50,30 @@ def to_kind_term(v, kind):
     return to_kind(v, kind)
 
 
+class LazyStr:
+    """An f-string with symbolic parts, not yet turned into a term (most feed log/error text)."""
+
+    def __init__(self, it, parts, node=None):
+        self.it, self.parts, self.node = it, parts, node
+        self._forced = None
+
+    def force(self):
+        if self._forced is None:
+            out = []
+            for p in self.parts:
+                if isinstance(p, LazyStr):
+                    p = p.force()
+                elif not isinstance(p, str):
+                    p = to_str(self.it, p, self.node)
+                out.append(p)
+            self._forced = concat_str(self.it, out)
+        return self._forced
+
+
+def force(v):
+    return v.force() if isinstance(v, LazyStr) else v
+
+
 def is_scalar(v):
     return isinstance(v, (SV,) + CONCRETE_SCALARS)
 
@@ -58,6 +84,7 @@ def mk(kind, term):
 
 def specialize(it, v, node=None):
     """Resolve a polymorphic ('any') value into None / int / str / bool on this path."""
+    v = force(v)
     if not (isinstance(v, SV) and v.kind == "any"):
         return v
     t = v.term
@@ -77,6 +104,7 @@ def specialize(it, v, node=None):
 
 # --------------------------------------------------------------------------- truth
 def truth(it, v):
+    v = force(v)
     if isinstance(v, SV):
         if v.kind == "bool":
             return v.term
@@ -123,6 +151,7 @@ def truth(it, v):
 # --------------------------------------------------------------------------- conversions
 def to_str(it, v, node=None):
     """str(v)"""
+    v = force(v)
     v = specialize(it, v, node)
     if isinstance(v, SV):
         if v.kind == "str":
@@ -156,6 +185,7 @@ def concat_str(it, parts):
 
 def to_int(it, v, node=None):
     """int(v)"""
+    v = force(v)
     v = specialize(it, v, node)
     if isinstance(v, SV):
         if v.kind == "int":
@@ -304,6 +334,10 @@ def unop(it, op, v, node=None):
 # --------------------------------------------------------------------------- comparison
 def eq_term(it, a, b, node=None):
     """a == b as a Python bool or a z3 Bool."""
+    a = force(a)
+    b = force(b)
+    if any(type(x).__name__ == "AwVer" for x in (a, b)):
+        raise Unsupported("== on a symbolic AwesomeVersion")
     if a is b and not isinstance(a, SV):
         if not isinstance(a, float):
             return True
@@ -391,6 +425,8 @@ def _bool_val(t):
 
 
 def compare(it, op, a, b, node=None):
+    a = force(a)
+    b = force(b)
     if op in ("Is", "IsNot"):
         r = is_term(it, a, b)
         if op == "IsNot":
@@ -417,6 +453,8 @@ def compare(it, op, a, b, node=None):
         except Exception as exc:  # pylint: disable=broad-except
             raise PyRaise(ExcVal(type(exc), exc.args, site=it.site(node))) from None
     # rich comparison on objects (AwesomeVersion etc.) is modelled
+    if any(type(x).__name__ in ("AwVer", "AwesomeVersion") for x in (a, b)):
+        return it.aw_compare(it, op, a, b, node)
     for x in (a, b):
         if isinstance(x, (Obj, Row)) or (not is_scalar(x)):
             m = it.type_models.get(type(x).__name__ if not isinstance(x, (Obj, Row)) else x.pycls.__name__)
@@ -466,6 +504,8 @@ def is_term(it, a, b):
 
 def contains(it, container, item, node=None):
     """item in container"""
+    container = force(container)
+    item = force(item)
     from .loops import VisitedSet
 
     if isinstance(container, VisitedSet):
@@ -572,6 +612,7 @@ def iter_concrete(it, v, node=None):
 
 
 def unpack(it, v, n, node=None):
+    v = force(v)
     v = specialize(it, v, node)
     if isinstance(v, (tuple, list)):
         if len(v) != n:
@@ -658,6 +699,8 @@ def _int_term(it, v, node=None):
 
 # --------------------------------------------------------------------------- subscripts
 def getitem(it, obj, idx, node=None):
+    obj = force(obj)
+    idx = force(idx)
     obj = specialize(it, obj, node)
     from .loops import GhostArr
 
@@ -817,6 +860,7 @@ def delitem(it, obj, idx, node=None):
 
 # --------------------------------------------------------------------------- attributes
 def getattr_(it, obj, name, node=None):
+    obj = force(obj)
     from .interp import SuperProxy
 
     am = it.attr_models.get((type(obj).__name__, name))
